@@ -18,8 +18,12 @@ var oidPACEPrefix = []byte{0x04, 0x00, 0x7F, 0x00, 0x07, 0x02, 0x02, 0x04}
 // id-CA = 0.4.0.127.0.7.2.2.3 ; 1 DH 2 ECDH ; cipher as above
 var oidCAPrefix = []byte{0x04, 0x00, 0x7F, 0x00, 0x07, 0x02, 0x02, 0x03}
 
-func PACEOid(mapping, cipher int) []byte { return append(append([]byte{}, oidPACEPrefix...), byte(mapping), byte(cipher)) }
-func CAOid(kind, cipher int) []byte     { return append(append([]byte{}, oidCAPrefix...), byte(kind), byte(cipher)) }
+func PACEOid(mapping, cipher int) []byte {
+	return append(append([]byte{}, oidPACEPrefix...), byte(mapping), byte(cipher))
+}
+func CAOid(kind, cipher int) []byte {
+	return append(append([]byte{}, oidCAPrefix...), byte(kind), byte(cipher))
+}
 
 // OIDString renders DER content octets of an OID in dotted form.
 func OIDString(b []byte) string {
@@ -91,25 +95,30 @@ type PACEConf struct {
 	Passwords map[int][]byte
 	// CAMKey is the static key used by the chip-authentication mapping (its public part is in CardSecurity).
 	CAMKey *refpki.ECPrivateKey
+	// NoPwdNonce (hostile): a device that does NOT know the password. It cannot produce an encrypted nonce whose
+	// decryption it knows, so it sends these bytes as the encrypted nonce and carries on HONESTLY under the
+	// assumption that the terminal will use the nonce value zero. (For a non-empty value the terminal's
+	// decryption is unpredictable to it; the empty string decrypts to the empty nonce whatever the key.)
+	NoPwdNonce *[]byte
 }
 
 // PasswordFromMRZInfo returns K = SHA-1(MRZ information) (9303-11 §9.7.3).
 func PasswordFromMRZInfo(info string) []byte { h := sha1.Sum([]byte(info)); return h[:] }
 
 type paceState struct {
-	proto   PACEProto
-	alg     refcrypto.Alg
-	oid     []byte
-	curve   *refpki.Curve
-	kPi     []byte
-	step    int
-	s       []byte
-	skMap   *big.Int
-	gx, gy  *big.Int // mapped generator
-	skEph   *big.Int
-	pkICx, pkICy   *big.Int
-	pkIFD   []byte
-	k       []byte // shared secret (fixed width x-coordinate)
+	proto        PACEProto
+	alg          refcrypto.Alg
+	oid          []byte
+	curve        *refpki.Curve
+	kPi          []byte
+	step         int
+	s            []byte
+	skMap        *big.Int
+	gx, gy       *big.Int // mapped generator
+	skEph        *big.Int
+	pkICx, pkICy *big.Int
+	pkIFD        []byte
+	k            []byte // shared secret (fixed width x-coordinate)
 	ksEnc, ksMac []byte
 }
 
@@ -271,6 +280,9 @@ func (c *Chip) doGeneralAuth(cmd *ref7816.Cmd, protected bool) ([]byte, uint16) 
 		}
 		p.s = c.Rand.Bytes(n)
 		z := refcrypto.CBCEncrypt(p.alg, p.kPi, make([]byte, p.alg.Block()), p.s)
+		if c.PACE.NoPwdNonce != nil {
+			p.s, z = nil, append([]byte{}, *c.PACE.NoPwdNonce...)
+		}
 		p.step = 1
 		return tlv1(0x7C, tlv1(0x80, z)), 0x9000
 	case 1: // map nonce
